@@ -785,6 +785,13 @@ def extra_pickle_round_trip(eng, tier, seed):
             t = c02._build_type(desc)
         except Exception:
             continue
+        import signal
+
+        def _alarm(sig, frm):
+            raise TimeoutError()
+
+        old_h = signal.signal(signal.SIGALRM, _alarm)
+        signal.alarm(10)  # nothing below expands a bit length set; a case that does not finish is skipped, not judged
         try:
             for proto in (2, pickle.HIGHEST_PROTOCOL):
                 u = pickle.loads(pickle.dumps(t, protocol=proto))
@@ -793,7 +800,7 @@ def extra_pickle_round_trip(eng, tier, seed):
                 if ok and hasattr(t, "attributes"):
                     ok = ([str(a) for a in u.attributes] == [str(a) for a in t.attributes] and u.attributes == t.attributes
                           and u.extent == t.extent and u.full_name == t.full_name and u.version == t.version
-                          and [str(o) for _, o in u.iterate_fields_with_offsets()] == [str(o) for _, o in t.iterate_fields_with_offsets()])
+                          and [o for _, o in u.iterate_fields_with_offsets()] == [o for _, o in t.iterate_fields_with_offsets()])
                 if ok:
                     # the copy stays a value of its own: mutating a list obtained from it does not affect the original
                     if hasattr(u, "attributes"):
@@ -804,9 +811,14 @@ def extra_pickle_round_trip(eng, tier, seed):
                     violations.append({"name": "native/pickle-round-trip", "concrete": {"type": desc, "protocol": proto},
                                        "detail": "unpickled object differs from the original: %s vs %s" % (u, t)})
                     break
+        except TimeoutError:
+            pass
         except Exception as ex:
             violations.append({"name": "native/pickle-round-trip", "concrete": {"type": desc},
                                "detail": "%s: %s" % (type(ex).__name__, str(ex)[:200])})
+        finally:
+            signal.alarm(0)
+            signal.signal(signal.SIGALRM, old_h)
         if violations:
             break
     return {"check": "pickle round trip of random nested types (bounded, native)", "round_trips": checked, "violations": violations}
